@@ -9,7 +9,7 @@ tv == <<vars, l>>
 ToMsg(j) == [from |-> j.from, kind |-> j.kind, src |-> j.src, dst |-> j.dst, tid |-> j.tid, uc |-> j.uc, rolea |-> j.rolea,
              user |-> <<j.user[1], j.user[2]>>, key |-> <<j.key[1], j.key[2]>>, prio |-> j.prio, tbc |-> j.tbc, copy |-> j.copy, nom |-> j.nom]
 ProjPairs(ps) == [k \in 1..Len(ps) |-> [id |-> ps[k].id, l |-> ps[k].l, r |-> ps[k].r, rt |-> ps[k].rt, st |-> ps[k].st, nom |-> ps[k].nom, nos |-> ps[k].nos, reqs |-> ps[k].reqs]]
-ToData(j) == [from |-> j.from, src |-> j.src, dst |-> j.dst, pid |-> j.pid]
+ToData(j) == [from |-> j.from, src |-> j.src, dst |-> j.dst, pid |-> j.pid, len |-> j.len]
 ProjTxn(x) == [tid |-> x.tid, dst |-> x.dst, uc |-> x.uc, nom |-> x.nom]
 PostOK(j) ==
   /\ \A a \in Agents :
@@ -40,7 +40,7 @@ ResetStep ==
   /\ now' = 0 /\ lastRx' = [a \in Agents |-> Never] /\ selStart' = [a \in Agents |-> 0] /\ chkStart' = [a \in Agents |-> 0]
   /\ lastTick' = [a \in Agents |-> "Unknown"] /\ gath' = [a \in Agents |-> "new"]
   /\ lastNom' = [a \in Agents |-> 0] /\ nomGen' = [a \in Agents |-> 0] /\ issued' = <<>>
-  /\ dnet' = EmptyBag /\ rd' = NoReads /\ wr' = 0
+  /\ dnet' = EmptyBag /\ rd' = NoReads /\ wr' = Wr0
 TNext == \/ Ev("Tick") /\ Tick(J.ag) /\ DataIdle /\ PostOK(J)
          \/ Ev("Deliver") /\ Deliver(ToMsg(J.m)) /\ DataIdle /\ PostOK(J)
          \/ Ev("Vanish") /\ Vanish(ToMsg(J.m)) /\ DataIdle /\ PostOK(J)
@@ -55,7 +55,9 @@ TNext == \/ Ev("Tick") /\ Tick(J.ag) /\ DataIdle /\ PostOK(J)
          \/ Ev("Close") /\ Close(J.ag) /\ DataIdle /\ PostOK(J)
          \/ Ev("SetRemoteCreds") /\ SetRemoteCreds(J.ag) /\ DataIdle /\ PostOK(J)
          \/ Ev("AddRemote") /\ AddRemote(J.ag, [addr |-> J.c.addr, typ |-> J.c.typ, prio |-> J.c.prio]) /\ DataIdle /\ PostOK(J)
-         \/ Ev("Write") /\ (IF J.stun \/ (J.cookie /\ J.err # "") THEN WriteStun(J.ag) ELSE Write(J.ag, J.pid)) /\ PostOK(J)
+         \/ Ev("Write") /\ (IF J.stun \/ (J.cookie /\ J.err # "") THEN WriteStun(J.ag) ELSE Write(J.ag, J.pid, J.len)) /\ PostOK(J)
+         \/ Ev("PauseRead") /\ PauseRead(J.ag) /\ PostOK(J)
+         \/ Ev("ResumeRead") /\ ResumeRead(J.ag) /\ PostOK(J)
          \/ Ev("DeliverData") /\ DeliverData(ToData(J.d)) /\ PostOK(J)
          \/ Ev("VanishData") /\ VanishData(ToData(J.d)) /\ PostOK(J)
          \/ Ev("DropData") /\ DropData(ToData(J.d)) /\ PostOK(J)
